@@ -7,11 +7,12 @@ Engine interface (see harness/run_check.py).  The work is split by importer:
   C20_dm.py       HRF design matrix                             (io/fmriprep.py, io/hrf.py)
   C20_spm.py      SPM high-pass filter, residuals, relocation, SPM.mat  (io/spm.py)
   C20_tree.py     fMRIPrep runs in a real BIDS tree             (io/bids.py, io/fmriprep.py)
+  C20_session.py  many look-ups on ONE BidsLayout / its objects (io/bids.py, io/fmriprep.py)
 Every case has a 'kind' that selects the sub-engine.
 """
 import json
 from lean import first_diff
-from engines import C20_bids, C20_meadows, C20_mne, C20_dm, C20_spm, C20_tree
+from engines import C20_bids, C20_meadows, C20_mne, C20_dm, C20_spm, C20_tree, C20_session
 
 PROPERTY = 'C20'
 LEVEL = 'proof'
@@ -30,8 +31,10 @@ THEOREMS = [P + n for n in (
     'hrf_zero_outside_support', 'hrf_shift_equivariant', 'epoch_times_grid', 'epochs_selection',
     'spm_residuals_annihilated', 'betas_resms_split', 'relocate_spec', 'meadows_rejections',
     'stem_padded', 'padStrs_spec', 'confound_selection', 'hrf_table_shape',
-    'meadows_loader_syntax')]
-RULE = ('cases come from one PRNG and five sub-generators: BIDS paths built from entity records by '
+    'meadows_loader_syntax',
+    # round 4
+    'session_lookups_stateless', 'session_meta_own_sidecar')]
+RULE = ('cases come from one PRNG and seven sub-generators: BIDS paths built from entity records by '
         'an independent formatter (all 64 presence patterns of ses/task/run/space/desc/derivative x '
         'random and adversarial labels, plus normpath noise and out-of-grammar paths); Meadows names '
         'of the three shapes and files written by the harness (.mat single / multi participant, .json '
@@ -46,12 +49,17 @@ RULE = ('cases come from one PRNG and five sub-generators: BIDS paths built from
         'FmriprepRun accessor, file contents being a function of the path (two sessions of one subject, '
         'the same file names in another derivative and in the raw tree, requested confound names none / '
         'empty / subset / reversed / missing); Meadows stimulus names with, without and with mixed '
-        'extensions (blank-padded char matrices).  Each sub-generator starts '
+        'extensions (blank-padded char matrices); look-up sessions: ONE BidsLayout and the file / FmriprepRun '
+        'objects it hands out asked 6-30 questions in varying order (trees with identical file names '
+        'under the raw root and 1-3 derivatives, several subjects / sessions, absent sidecars, objects '
+        'made directly / by find_mri_derivative_files / by find_fmriprep_runs, second objects for one '
+        'path, results kept and asked again, look-ups through layout / file / run), every call judged '
+        'on its own (file found + content read).  Each sub-generator starts '
         'with a fixed skeleton of directed cases reaching every tag of BRANCHES, then the random stream.  '
         'A case is non-trivial unless it is an out-of-grammar name; '
         'distinct = distinct JSON of the case')
 BRANCHES = (C20_bids.BRANCHES + C20_meadows.BRANCHES + C20_mne.BRANCHES + C20_dm.BRANCHES
-            + C20_spm.BRANCHES + C20_tree.BRANCHES)
+            + C20_spm.BRANCHES + C20_tree.BRANCHES + C20_session.BRANCHES)
 ASSUMPTIONS = [
     'os.path.normpath is the identity on relative paths without empty, "." or ".." components '
     '(the model drops empty and "." components, ".." is outside the BIDS grammar)',
@@ -74,17 +82,17 @@ TRUSTED_EXTRA = [
 SUB = {'bids': C20_bids, 'meadows_name': C20_meadows, 'meadows_load': C20_meadows,
        'mne': C20_mne, 'mne_name': C20_mne, 'dm': C20_dm,
        'spm': C20_spm, 'spm_resid': C20_spm, 'relocate': C20_spm, 'spm_info': C20_spm,
-       'tree': C20_tree}
+       'tree': C20_tree, 'session': C20_session}
 
 
 def generate(rng, tier):
-    for mod in (C20_bids, C20_meadows, C20_mne, C20_dm, C20_spm, C20_tree):
+    for mod in (C20_bids, C20_meadows, C20_mne, C20_dm, C20_spm, C20_tree, C20_session):
         yield from mod.gen(rng, tier)
 
 
 def search(rng, tier):
     # failing-input search: the numeric importers first (cheap, most fragile), then the names
-    for mod in (C20_spm, C20_dm, C20_tree, C20_meadows, C20_mne, C20_bids):
+    for mod in (C20_spm, C20_dm, C20_tree, C20_session, C20_meadows, C20_mne, C20_bids):
         yield from mod.gen(rng, 'quick')
 
 
@@ -136,4 +144,6 @@ def nontrivial_key(case, impl):
 def shrink(case, still_fails):
     if case['kind'] == 'spm':
         return C20_spm.shrink(case, still_fails)
+    if case['kind'] == 'session':
+        return C20_session.shrink(case, still_fails)
     return case
